@@ -4,7 +4,7 @@ HOOK_COMMITS = ["f2e7017", "f6e5a67"]
 
 ENGINES = [
     {"name": "core-trace", "path": "specs/core/CoreTrace.tla",
-     "serves_properties": ["C01", "C02", "C03", "C04", "C05", "C06", "C07", "C08", "C09", "C10", "C11", "C23"],
+     "serves_properties": ["C01", "C02", "C03", "C04", "C05", "C06", "C07", "C08", "C09", "C10", "C11", "C12", "C13", "C14", "C15", "C23"],
      "kind_free_text": "TLA+ monitor (trace specification) over Sem.tla reference semantics, evaluated by TLC on traces "
                        "recorded from real salsa by the programs-as-data harness"},
 ]
@@ -39,6 +39,13 @@ META = {
                "w.r.t. the active-revision queue (hook H5).", "§7 C09"),
     "C10": seq("Specified values vs the specify rules of Sem.tla; body of a validly specified key must not run.", "§7 C10"),
     "C11": seq("accumulated() results compared with AccumRef (depth-first, first-call order) of Sem.tla.", "§7 C11"),
+    "C12": seq("Every top-level result of programs with fixpoint cycles is compared by TLC with the Kleene least fixpoint "
+               "(Sem.tla Lfp) of the body equations, for every entry point and random write histories.", "§7 C12"),
+    "C13": seq("Results vs SemTableFb (members of an input-determined call-graph cycle return their fallback).", "§7 C13"),
+    "C14": seq("Requests whose from-scratch evaluation re-enters a function without recovery must panic with the cycle "
+               "error; all other results stay from-scratch.", "§7 C14 (sequential part)"),
+    "C15": seq("Programs without a fixpoint: outcome must be the iteration-limit panic (or a propagated panic in the same "
+               "revision); later revisions/unrelated functions vs Sem.", "§7 C15"),
     "C23": dict(seq("Value-lifetime discipline only (no raw-memory claims): no drop while a reference of the same revision "
                     "is held, retained references keep their value, no double drop, nothing leaked at database drop.",
                     "§7 C23, §8"), level="exploration"),
